@@ -51,9 +51,9 @@ fn helmert_common(
 
         // Time varying case?
         if dynamic && !fixed_t {
-            // Necessary to update parameters?
-            #[allow(clippy::float_cmp)]
-            if c[3] != prev_t {
+            // Necessary to update parameters? (+0 and -0 are different epochs here:
+            // the sign of a zero result depends on the sign of the time span)
+            if c[3].to_bits() != prev_t.to_bits() || c[3].is_nan() {
                 prev_t = c[3];
                 let dt = c[3] - epoch;
                 // From the reference epoch values, not accumulated from the previous tuple
